@@ -63,3 +63,66 @@ Proof.
   - intros x _. auto_derive; auto. unfold Rdiv. set (E := exp (- (x * x) * / 2)). field.
   - intros x _. apply (ex_derive_continuous (fun rho => rho * exp (- (rho * rho) / 2))). auto_derive; auto.
 Qed.
+
+(* ---- 2-D: the sampling cloud is an ellipse aligned with the q direction ----
+   With (c, s) the cosine and sine of atan(qy/qx):  for qx > 0 they are the unit vector q/|q|, and every sample is
+        q + (r dq_par cos a) q^ + (r dq_perp sin a) t^ ,   t^ = (-s, c)  the tangential direction,
+   so dq_par is the radial and dq_perp the tangential standard deviation.  For qx < 0, atan gives the direction of
+   -q and the whole cloud is the point reflection of that one (I(-q) = I(q)). *)
+From SM Require Import Base.Num C04.Model.
+Lemma sample_aligned (qx qy dq_par dq_perp r cd sd : R) : 0 < qx * qx + qy * qy ->
+  let q_r := sqrt (qx * qx + qy * qy) in
+  let c := qx / q_r in let s := qy / q_r in
+  sample ROps sqrt qx qy dq_par dq_perp c s r cd sd =
+  (qx + (r * dq_par * cd) * c + (r * dq_perp * sd) * (- s),
+   qy + (r * dq_par * cd) * s + (r * dq_perp * sd) * c).
+Proof.
+  intros Hq q_r c s. unfold sample. cbn [add sub mul opp ROps]. fold q_r.
+  assert (Hr : q_r <> 0) by (apply Rgt_not_eq; apply sqrt_lt_R0; exact Hq).
+  unfold c, s. f_equal; field; exact Hr.
+Qed.
+Lemma sample_reflected (qx qy dq_par dq_perp c s r cd sd : R) :
+  sample ROps sqrt (- qx) (- qy) dq_par dq_perp c s r cd sd = sample ROps sqrt qx qy dq_par dq_perp c s r cd sd.
+Proof. unfold sample. cbn [add sub mul opp ROps]. replace (- qx * - qx + - qy * - qy) with (qx * qx + qy * qy) by ring. reflexivity. Qed.
+(* atan(qy/qx) for qx > 0 is the polar angle of q: its cosine and sine are q/|q| *)
+Lemma atan_direction (qx qy : R) : 0 < qx ->
+  cos (atan (qy / qx)) = qx / sqrt (qx * qx + qy * qy) /\ sin (atan (qy / qx)) = qy / sqrt (qx * qx + qy * qy).
+Proof.
+  intros Hx. set (t := qy / qx).
+  assert (Hc : 0 < cos (atan t)) by (apply cos_gt_0; destruct (atan_bound t); lra).
+  assert (Ht : tan (atan t) = t) by apply atan_right_inv.
+  assert (H1 : cos (atan t) * cos (atan t) * (1 + t * t) = 1).
+  { assert (Hsin : sin (atan t) = t * cos (atan t)).
+    { transitivity (tan (atan t) * cos (atan t)); [unfold tan; field; lra | rewrite Ht; reflexivity]. }
+    pose proof (sin2_cos2 (atan t)) as H. unfold Rsqr in H. rewrite Hsin in H.
+    replace (cos (atan t) * cos (atan t) * (1 + t * t)) with (t * cos (atan t) * (t * cos (atan t)) + cos (atan t) * cos (atan t)) by ring.
+    exact H. }
+  assert (Hq : 0 < qx * qx + qy * qy) by nra.
+  assert (Hs : sqrt (qx * qx + qy * qy) = qx * sqrt (1 + t * t)).
+  { rewrite <- (sqrt_square qx) at 3 by lra. rewrite <- sqrt_mult by nra. f_equal. unfold t. field. lra. }
+  assert (Hp : 0 < sqrt (1 + t * t)) by (apply sqrt_lt_R0; nra).
+  assert (Hcos : cos (atan t) = / sqrt (1 + t * t)).
+  { apply Rmult_eq_reg_r with (sqrt (1 + t * t)); [|lra]. rewrite Rinv_l by lra.
+    assert (Hsq : (cos (atan t) * sqrt (1 + t * t)) * (cos (atan t) * sqrt (1 + t * t)) = 1).
+    { replace (cos (atan t) * sqrt (1 + t * t) * (cos (atan t) * sqrt (1 + t * t)))
+        with (cos (atan t) * cos (atan t) * (sqrt (1 + t * t) * sqrt (1 + t * t))) by ring.
+      rewrite sqrt_sqrt by nra. exact H1. }
+    assert (Hpos : 0 < cos (atan t) * sqrt (1 + t * t)) by (apply Rmult_lt_0_compat; lra).
+    nra. }
+  split.
+  - rewrite Hcos, Hs. field. split; lra.
+  - replace (sin (atan t)) with (tan (atan t) * cos (atan t)) by (unfold tan; field; lra).
+    rewrite Ht, Hcos, Hs.
+    assert (Htq : t * qx = qy) by (unfold t; field; lra).
+    rewrite <- Htq. field. split; lra.
+Qed.
+Theorem cloud_aligned (qx qy dq_par dq_perp r cd sd : R) : 0 < qx ->
+  let c := cos (atan (qy / qx)) in let s := sin (atan (qy / qx)) in
+  sample ROps sqrt qx qy dq_par dq_perp c s r cd sd =
+  (qx + (r * dq_par * cd) * c + (r * dq_perp * sd) * (- s),
+   qy + (r * dq_par * cd) * s + (r * dq_perp * sd) * c)
+  /\ c = qx / sqrt (qx * qx + qy * qy) /\ s = qy / sqrt (qx * qx + qy * qy).
+Proof.
+  intros Hx c s. destruct (atan_direction qx qy Hx) as [Hc Hs]. fold c in Hc. fold s in Hs.
+  split; [|split; assumption]. rewrite Hc, Hs. apply sample_aligned. nra.
+Qed.
